@@ -31,7 +31,7 @@ STRENGTHENED = {
  'C10-6': 'combiner re-sampled after an update (written_params)', 'C11-6': 'pattern of the recorded finding narrowed to the two calls it describes', 'C12-5': 'per-channel 0-bit instances under hard sampling',
  'C13-5': 'quantizer observed after an earlier call on the same Parameter', 'C14-5': 'integer network built right after a checkpoint is loaded', 'C14-6': 'nets whose only large biases are negative',
  'C17-4': 'train_net_only prefix; requires_grad kept by symbolify', 'C17-5': 'storage aliasing kept by symbolify; per-layer temperatures', 'C18-5': 'PIT config with an excluded layer and full_cost',
- 'C19-6': 'integer-typed targets', 'C01-7': 'program X2', 'C03-8': 'frozen-selection phase', 'C04-8': 'D2(C=5)', 'C06-8': 'two-stage program', 'C07-8': 'userdrop block',
+ 'C19-6': 'integer-typed targets', 'C01-7': 'program X2', 'C09-8': 'MPS program MF', 'C03-8': 'frozen-selection phase', 'C04-8': 'D2(C=5)', 'C06-8': 'two-stage program', 'C07-8': 'userdrop block',
  'C11-8': 'exploration past the recorded deviation; phase sequences of length 4', 'C14-8': 'narrow-integer overflow guards; tight-clip nets', 'C15-8': 'generic_twice', 'C16-8': 'depthwise->grouped monotonicity', 'C19-8': 'first_metric_within_target', 'C01-6': 'search-phase instances (after=)', 'C02-7': 'padded-conv programs, pad handlers', 'C04-7': 'program K4', 'C05-7': 'cost read with and without autograd',
  'C06-7': 'hard Gumbel sampling in training mode', 'C08-7': 'search-phase instances (after=)', 'C09-7': 'program Q2 (on the tree before e4c0b47)', 'C10-7': 'checkpoint restored into an evaluated model; one-hot check',
  'C11-7': 'two-block SuperNet with per-block reference', 'C12-6': 'gap8 on L1, cost read twice', 'C14-7': 'wiring obligation', 'C15-7': 'two anonymous user constraints', 'C16-7': 'rejected supported precision is a violation',
